@@ -897,6 +897,9 @@ def mon_c10(case_line, acts):
     inb = bytearray()
     wpos = ipos = 0
     unflushed = []         # packet types fully written but not yet flushed
+    slow = 0               # virtual time that passed inside write calls since `last`
+    w_start = None         # clock before a slow write call in progress
+    call_start = 0         # clock at the start of the latest write call
 
     def blocked(deadline):
         # was a PINGREQ awaiting its answer at `deadline`?  (K10: the next PINGREQ is not sent while one is outstanding)
@@ -914,8 +917,14 @@ def mon_c10(case_line, acts):
         cause = None       # a reason other than keep-alive for this action to report Disconnected
         if not live:
             cause = 'dead'
-        for e in a.events:
-            if e[0] == 't':
+        for j, e in enumerate(a.events):
+            if e[0] == 't' and j + 1 < len(a.events) and a.events[j + 1][0] == 'w':
+                # time that passes INSIDE a write call (a slow transport): the client is blocked in the transport, what
+                # elapses here is not the client's to answer for - it is discounted from the gaps measured below
+                slow += e[1] - now
+                w_start = now          # the clock the client read before this call
+                now = e[1]
+            elif e[0] == 't':
                 t = e[1]
                 if a.code in (6, 7) and live and not tainted:
                     if outstanding is not None and now >= outstanding + RTT_MS:
@@ -923,7 +932,7 @@ def mon_c10(case_line, acts):
                         out.append(V('PINGREQ completed at %d ms unanswered, client serviced at %d ms and still waiting '
                                      '(bound %d ms)' % (outstanding, now, RTT_MS)))
                         tainted = True
-                    elif K > 0 and last is not None and now - last > K:
+                    elif K > 0 and last is not None and now - last - slow > K:
                         # serviced at `now`, more than K after the last completion, and waiting on (a wait that merely
                         # ends past last + K is not counted: the runner's 100 ms re-poll granularity is not the client's)
                         cls = 'K10' if (K < RTT_MS and blocked(last + K)) else None
@@ -932,6 +941,8 @@ def mon_c10(case_line, acts):
                         last = None
                 now = t
             elif e[0] == 'w':
+                call_start = w_start if w_start is not None else now
+                w_start = None
                 if e[2] is None or e[2] == 0:
                     tainted = True
                     cause = 'io'
@@ -947,15 +958,19 @@ def mon_c10(case_line, acts):
                     cause = 'io'
                 else:
                     if unflushed and not tainted and a.code != 0:
-                        if K > 0 and last is not None and now - last > K:
+                        if K > 0 and last is not None and now - last - slow > K:
                             cls = 'K10' if (K < RTT_MS and blocked(last + K)) else None
-                            out.append(V('client packets completed at %d ms and %d ms: gap exceeds the keep-alive of %d ms'
-                                         % (last, now, K), cls))
+                            out.append(V('client packets completed at %d ms and %d ms%s: gap exceeds the keep-alive of %d ms'
+                                         % (last, now, ' (%d ms of it inside transport writes, discounted)' % slow if slow else '', K), cls))
                         last = now
+                        slow = 0
                         if 12 in unflushed:
                             if K == 0 and live:
                                 out.append(V('PINGREQ sent at %d ms with an effective keep-alive of zero' % now))
-                            outstanding = now
+                            # "one keep-alive round trip" (state.rs) runs from the clock reading taken before the write
+                            # call that completed the PINGREQ: on a transport whose write takes time, the send is part
+                            # of the round trip
+                            outstanding = call_start
                     unflushed = []
             elif e[0] == 'r':
                 if e[2] is None:
